@@ -24,6 +24,7 @@ DEFAULT_CAPS = {"slot": 4, "lhs": 4, "map": 4}
 STUBS = {
     "sort": ["core::slice::sort::unstable::sort, crate::verif_vk::k_unstable_sort"],
     "optref": ["core::option::Option::<T>::as_ref, crate::verif_vk::k_opt_as_ref"],
+    "boxslice": ["alloc::vec::Vec::<T, A>::into_boxed_slice, crate::verif_sup::k_into_boxed_slice"],
 }
 ENV = dict(os.environ, CARGO_NET_OFFLINE="true", CARGO_TERM_COLOR="never")
 ENV.pop("RUSTFLAGS", None)
@@ -215,7 +216,7 @@ def build_kani_ws(root, hfiles, caps, hashorder=False, vecmodel=False):
         '[lints.rust]\nunexpected_cfgs = { level = "allow" }\n')
     open(os.path.join(root, "pie", "Cargo.toml"), "w").write(
         '[package]\nname = "pie"\nversion = "0.1.0"\nedition = "2021"\n[dependencies]\n'
-        'pie_graph = { path = "../graph" }\ndyn-clone = "1"\nkstd = { path = "../models/kstd" }\n'
+        'pie_graph = { path = "../graph" }\ndyn-clone = { path = "../models/dyn-clone" }\nkstd = { path = "../models/kstd" }\n'
         '[features]\nfile_hash_checker = []\n[lints.rust]\nunexpected_cfgs = { level = "allow" }\n')
     shutil.copy(os.path.join(MODELS_DIR, "Cargo.lock"), os.path.join(root, "Cargo.lock"))
     for crate in ("graph", "pie"):
@@ -232,6 +233,8 @@ def build_kani_ws(root, hfiles, caps, hashorder=False, vecmodel=False):
         lib = os.path.join(root, crate, "src", "lib.rs")
         t = open(lib).read()
         t = _inject_root_line(t, "extern crate kstd as std;")
+        if crate == "pie":
+            t = "#![cfg_attr(kani, feature(allocator_api))]\n" + t
         if vecmodel and "src/lib.rs" in VEC_FILES[crate]:
             t = t.replace("extern crate kstd as std;", "extern crate kstd as std;\n#[allow(unused_imports)] use std::kvec::Vec;", 1)
         t += f'\n#[cfg(kani)]\n#[path = "{hdir}/vk.rs"]\npub(crate) mod verif_vk;\n'
@@ -326,6 +329,9 @@ def kani_cmd(h, target_dir, extra=()):
     if os.environ.get("VERIF_RESTRICT_VTABLE", "1") == "1":
         cmd += ["-Z", "restrict-vtable"]
     cmd += list(extra)
+    fs = h.kv.get("fieldsens") or os.environ.get("VERIF_FIELDSENS")
+    if fs and "--only-codegen" not in extra:
+        cmd += ["--cbmc-args", "--max-field-sensitivity-array-size", str(fs)]
     return cmd
 
 
